@@ -324,7 +324,11 @@ class HTTP2Connection(ConnectionInterface):
         headers = []
         for k, v in event.headers:
             if k == b":status":
-                status_code = int(v.decode("ascii", errors="ignore"))
+                try:
+                    status_code = int(v.decode("ascii", errors="ignore"))
+                except ValueError:
+                    msg = f"Invalid ':status' header in response: {v!r}"
+                    raise RemoteProtocolError(msg) from None
             elif not k.startswith(b":"):
                 headers.append((k, v))
 
